@@ -172,6 +172,34 @@ fn survivors_violation(old: &T, new: &T) -> Option<String> {
     }
     None
 }
+/// the same clause one level DOWN: old = F[F[a..]], new = F[F[b..]] with a, b leaf lists of pairwise distinct shape, common ones
+/// in the same order -- the edit is inside a nested call node.  The single wrapping child starts at word 0, so the word
+/// offsets of the inner children are those of the inner lists.  Pool with LARGE cells (seed C08n: a removal that is large
+/// relative to what survives)
+fn nested_survivors_violation(a: &[T], b: &[T]) -> Option<String> {
+    let old = fc(vec![fc(a.to_vec())]);
+    let new = fc(vec![fc(b.to_vec())]);
+    let ow: Vec<u64> = (0..size(&old)).map(|i| 1000 + i as u64).collect();
+    let got = match build_state_storage_patch_plan(old.clone(), new.clone()) {
+        Some(plan) => apply_state_storage_patch_plan(&ow, &plan),
+        None => ow.clone(),
+    };
+    let mut noff = 0usize;
+    for n in b.iter() {
+        let mut ooff = 0usize;
+        for o in a.iter() {
+            if shape_eq(o, n) {
+                let sz = size(n);
+                if got.get(noff..noff + sz) != Some(&ow[ooff..ooff + sz]) {
+                    return Some(format!("build_patches_recursive::ensures[completeness: surviving child {} of the nested call (old words {}..{}) is not carried to new words {}..{}]", show(n), ooff, ooff + sz, noff, noff + sz));
+                }
+            }
+            ooff += size(o);
+        }
+        noff += size(n);
+    }
+    None
+}
 fn fc(v: Vec<T>) -> T { S::FnCall(v.into_iter().map(Box::new).collect()) }
 /// completeness clause with IDENTICALLY shaped siblings ("up to exchange among identically shaped siblings"): `sub` is a
 /// subsequence of `sup` (children only removed, or only added).  Every child of the shorter list survives, so its words
@@ -360,6 +388,28 @@ fn main() {
             let ol: Vec<T> = oc.iter().map(|b| (**b).clone()).collect();
             let nl: Vec<T> = nc.iter().map(|b| (**b).clone()).collect();
             match dup_survivors_violation(&ol, &nl) { Some(c) => println!("FAILS {c}"), None => println!("HOLDS") }
+        }
+        Some("survivors-search-nested") => {
+            let max: usize = args[2].parse::<usize>().unwrap().min(4);
+            let pool = vec![S::Mem(1), S::Feed(1), S::Delay { len: 8 }, S::Delay { len: 40 }, S::Mem(12), S::Feed(3)];
+            let lists = distinct_lists_from(max, pool);
+            let mut tried = 0u64;
+            for a in &lists {
+                for b in &lists {
+                    if a.is_empty() || b.is_empty() || !same_order(a, b) { continue; }
+                    tried += 1;
+                    if let Some(c) = nested_survivors_violation(a, b) {
+                        println!("FOUND old={} new={} clause={c} tried={tried}", show(&fc(vec![fc(a.clone())])), show(&fc(vec![fc(b.clone())])));
+                        return;
+                    }
+                }
+            }
+            println!("NONE tried={tried} lists={}", lists.len());
+        }
+        Some("survivors-nested") => {
+            let (o, n) = (parse(&args[2]), parse(&args[3]));
+            let inner = |t: &T| -> Vec<T> { match t { S::FnCall(c) if c.len() == 1 => match &*c[0] { S::FnCall(cc) => cc.iter().map(|b| (**b).clone()).collect(), _ => vec![] }, _ => vec![] } };
+            match nested_survivors_violation(&inner(&o), &inner(&n)) { Some(c) => println!("FAILS {c}"), None => println!("HOLDS") }
         }
         Some("survivors-search-similar") => {
             let max: usize = args[2].parse().unwrap();
